@@ -657,7 +657,7 @@ Section Inv.
   Qed.
 
   Definition with4 (s : rst) (cl : cluster) (tr : list item) : rst :=
-    mkR cl (r_tbl s) (r_cache s) (r_aband s) (r_nlist s) (r_nget s) (r_nwrite s) (r_gets s) tr (r_abort s).
+    mkR cl (r_tbl s) (r_cache s) (r_aband s) (r_nlist s) (r_nget s) (r_nwrite s) (r_gets s) tr (r_abort s) (r_known s).
 
   Lemma Big_ns_created td tw s cl1 n u :
     Big P0 td tw s -> sc_inv_ns sc = Some n -> In n aids -> fo (r_cl s) n = None -> applied (r_cl s) cl1 n u ->
